@@ -76,6 +76,16 @@ add("C11", "rec_with_switch", ["unexpected_error:NodeErr1"], W1 + " and fails(v,
 add("C11", "rec_with_oneof", ["unexpected_error:NodeErr1", "wrong_cause:NodeErr1"], W1 + " and fails(v, 'C1', 'C2')", REC_EAGER)
 add("C11", "rec_with_oneof", ["executed_undemanded:C2", "executed_more:C2:2>1"], W1, REC_EAGER)
 add("C11", "rec_two_scopes", ["arg:W.s", "arg:X.d", "wrong_value"], W1, OUTSIDE)
+LEAK = ("a node that is a one-of candidate and also a plain Input of another node: its failure is kept as a value inside "
+        "the one-of subgraph (contained), and that stored exception object is then delivered to the plain consumer as its "
+        "argument; the run returns a value although a required node failed")
+add("C03", "r3_oneof_candidate_also_input", ["bad_arg_type:Rp.shared:NodeErr1"], "fails(v, 'Sh')", LEAK)
+add("C10", "r3_oneof_candidate_also_input", ["bad_arg_type:Rp.shared:NodeErr1", "executed_undemanded:Rp", "missing_error",
+                                             "value_returned_though_required_node_failed"], "fails(v, 'Sh')", LEAK)
+add("C03", "r3_rec_with_switch_inner", ["arg:C.v"], W1, REC_EAGER)
+add("C04", "r3_rec_with_oneof", ["executed_more:C2:2>1", "executed_undemanded:C2"], W1, REC_EAGER)
+for _p in ("C09", "C11"):
+    add(_p, "r3_rec_with_switch_inner", ["arg:C.v", "executed_more:X:2>1", "executed_undemanded:X", "wrong_value"], W1, REC_EAGER)
 # C15
 add("C15", "family_n5", ["parameter_dropped_or_merged:f4:declared=x,y:delivered=y"],
     "(v['n4_kind'] == 0 and v['n4_second'] - 1 == v['n4_src']) or "
@@ -99,6 +109,7 @@ FIXED = [
  ("C18", "save JSON artifacts in text mode", "save(fmt=JSON) raised TypeError and left an empty file that made the key look saved"),
  ("C18", "look artifacts up by exact file name", "glob('<id>.*') aliased ids ('a' vs 'a.b'), treated id characters as wildcards and raised ValueError for '**'"),
  ("C20", "viewer config accepts", "viewer config raised ValueError for user-defined node types (family_custom_type)"),
+ ("C10", "wake the consumers of a recurrent subgraph", "a node failing in an iteration of a recurrent subgraph inside a one-of candidate, two or more steps away from the destination of the subgraph (or the exhaustion of a nested subgraph), left the one-of waiting forever (r3_rec_in_oneof_chain: M fails on its second invocation; r3_rec_nested_in_oneof)"),
  ("C19", "do not save Recurrent markers", "Recurrent markers and contained one-of failures were saved as node artifacts (rec_simple: saved_recurrent_marker; oneof_basic: saved_failure)"),
 ]
 
